@@ -456,3 +456,11 @@ def d7(cx: Cx, ob: Ob) -> None:
         ob.undecide("row parsing of read_triples not recognised")
     elif got != [0, 1, 2]:
         ob.violate(r.qualname, r.where, f"read_triples maps columns {got} to (subject, predicate, object); expected [0, 1, 2]", detail="read-columns")
+
+
+
+@obligation("C15-X3", "no memoised derived values (cached_property / lru_cache) on Record, Reference or Converter objects, which are changed in place or copied with updates", floor=3)
+def x3(cx: Cx, ob: Ob) -> None:
+    from ..rules import cached_derivations
+
+    cached_derivations(cx, ob)
